@@ -190,6 +190,34 @@ def check_client_environment(st):
     st.sample({'client_audit_environment': 'bind failures x client address family x options'}, cap=20)
 
 
+# a client audit: when the client dials in (virtual seconds after the tool started listening) x where it then stalls x the -t value
+def check_client_timing(st):
+    from mc import runner, vnet
+    for tval in (None, 2, 3, 5):
+        limit = tval or 5
+        for arrive in [0.0, 0.5] + [k + d for k in range(0, limit + 1) for d in (0.05, 0.95)]:
+            for stall in (None, ('cli', 0, 0), ('cli', 0, 1)):
+                for how in (('trunc_stall', 0), ('trunc_stall', 5)) if stall else (None,):
+                    cli = peer.Client(label='cli', kex=['curve25519-sha256'], key=['ssh-ed25519'], enc=['aes256-ctr'], mac=['hmac-sha2-256'])
+                    cli.arrive_at = arrive
+                    w = vnet.World(clients=[cli], faults={stall: how} if stall else None)
+                    res = runner.run_cli(['-c', '-n'] + (['-t', str(tval)] if tval else []), w)
+                    st.execution(w, outcome=('client-timing', res.status, bool(res.hang)), root=('client-timing', tval, arrive, stall, how), nontrivial=('client-timing', tval, arrive, stall, how))
+                    d = {'t': tval, 'client_dials_after_s': arrive, 'stall_at': list(stall) if stall else None, 'how': list(how) if how else None, 'status': res.status,
+                         'virtual_seconds': round(res.clock, 2), 'stdout_tail': res.stdout[-200:]}
+                    if res.hang or res.exc or res.status not in (0, 1, 2, 3):
+                        st.violation('client-timing:hang-crash-or-undocumented-status', dict(d, hang=res.hang, exc=res.exc))
+                        continue
+                    if res.clock > arrive + 3 * limit + 3:
+                        st.violation('client-timing:too-slow', d)
+                    shown = 'curve25519-sha256' in res.stdout
+                    if stall is None and arrive < limit - 1 and tval is not None and (not shown or res.status not in (0, 2, 3)):
+                        st.violation('client-timing:punctual-client-not-audited', d)
+                    if stall is not None and (shown or res.status != 1):
+                        st.violation('client-timing:stalled-client-but-status-%s' % res.status, d)
+    st.sample({'client_audit_timing': 'arrival second x stall point x -t'}, cap=20)
+
+
 def run(tier, seed):
     t0 = time.time()
     st = evidence.Stats()
@@ -220,6 +248,7 @@ def run(tier, seed):
     par.pmap(work_paths, paths, stats=st, chunk=20)
     par.pmap(work_degenerate, degenerate_gex_tasks(), stats=st, procs=1)
     check_client_environment(st)
+    check_client_timing(st)
     par.pmap(work_banner, banner_content_tasks(), stats=st, chunk=8)
     # replay determinism: the same plan must give the same observation when executed again (and again after other executions)
     for arch, short, plan in H.pick(all_tasks, seed + 7, 60):
